@@ -37,17 +37,30 @@
         than two flights per trip, promises on, and route distances that are positive numbers
         ([route_ok]; true of every positive finite float64 pair).  The days offered are characterised
         exactly ([C20_planner_offers_exactly_the_free_days]).
-    NOT proved: that Engine.modelDay performs these steps in this order for every bot (read off the
-    code and mirrored by the harness, which drives the REAL promisesPlanner and journeyPlanner
-    functions through hooks and compares every step with Model/Bot.v and the engine model), planning
-    threads, and anything about the rest of the 1000-line simulation driver (configuration handling,
-    reporting, files).  Exercised on every run: protocol histories on the real flap.Engine, the real
+    (e) THE WHOLE POPULATION ON ONE ENGINE ([C20_simulated_population_follows_the_discipline],
+        [C20_simulated_population_is_never_refused], Model/Sim.v, Proofs/SimP.v): one day of Engine.modelDay
+        for any number of traveller-bots sharing one flap engine - the daily update of all records (any
+        accepted thread setting), every planning call of every planning thread in whatever order they ran
+        (Propose + Make on the engine, the promised distance as Engine.Propose computes it from the planned
+        flights, taxi overhead and promise-distance correction), the day's check-ins of every bot in the
+        journey planner's order (the correction accumulators change between them), the parameters stored
+        for the next day - iterated over any number of days, is an engine history that follows the
+        discipline, so EVERY check-in of the simulated population is accepted.  The hypotheses are decided
+        by computation along the run ([C20_checked_population_is_never_refused]; the predictor enters only
+        through the clause "an issued proposal has positive clearance dates", checked on the proposal).
+        [C20_planning_threads_visit_every_bot_once]: doPlanTrips' stride loop gives every bot of a band to
+        exactly one of the planning threads, exactly once, for any positive number of threads.
+    NOT proved: that the Go code of Engine.modelDay / planTrips / submitFlights IS Model/Sim.v (read off
+    the code; the harness drives the REAL promisesPlanner and journeyPlanner functions through hooks in
+    this order and compares every step with Model/Bot.v and the engine model), Go-level races between
+    planning threads, and anything about the rest of the 1000-line simulation driver (configuration
+    handling, reporting, files).  Exercised on every run: protocol histories on the real flap.Engine, the real
     planner code on a real engine, and the real Build/Run in child processes over generated worlds. *)
 From Coq Require Import ZArith List Bool.
 From Coq Require Import Lia.
 From Coq Require Import Sorting.Sorted.
 From Coq Require Import Floats.
-From Flap Require Import Model.Num Model.NumF Model.NumZ Model.TripHistory Model.Promises Model.Predictor Model.Engine Model.Bot Proofs.BotPlanP Proofs.BotDayP Proofs.BotBookP
+From Flap Require Import Model.Num Model.NumF Model.NumZ Model.TripHistory Model.Promises Model.Predictor Model.Engine Model.Bot Model.Sim Proofs.BotPlanP Proofs.BotDayP Proofs.BotBookP Proofs.SimP
   Proofs.PromisesP Proofs.PromisesFrameP Proofs.ClearedP Proofs.EngineInv Proofs.UpdateAllP Proofs.ProtocolP Proofs.TrialP
   Proofs.TableP Proofs.ItineraryP Proofs.HistoryP Proofs.HistoryEngineP Proofs.BotShapeP.
 Import ListNotations.
@@ -377,3 +390,81 @@ Theorem C20_trip_of_maximum_length_leaving_at_midnight_refuted :
   all_acceptedb 3 (@new_traveller NumZ (ex_day 18000)) (f19_history 1) = true.
 Proof. split; vm_compute; reflexivity. Qed.
 Print Assumptions C20_trip_of_maximum_length_leaving_at_midnight_refuted.
+
+
+(** ---- the whole population of traveller-bots on one engine (Model/Sim.v) ---- *)
+Theorem C20_simulated_population_day : forall (N : NumOps) mx, 1 <= mx ->
+  forall (dist : Z -> Z -> K N) (tp : thparams), rules_ok tp ->
+  forall d c (s : sim N) (pd : pop_day N),
+  PopInv mx dist tp d c s -> pop_day_ok mx dist tp d s pd ->
+  let '(s', xs) := sim_day dist d s pd in
+  x_conforming mx c (s_eng s) (map to_xev xs) /\ s_eng s' = fold_left (sop_apply (N:=N)) xs (s_eng s) /\
+  PopInv mx dist tp (d + 1) (s_clock c (s_eng s) xs) s'.
+Proof. exact @sim_day_conforms. Qed.
+Print Assumptions C20_simulated_population_day.
+
+Theorem C20_simulated_population_follows_the_discipline : forall (N : NumOps) mx, 1 <= mx ->
+  forall (dist : Z -> Z -> K N) (tp : thparams), rules_ok tp ->
+  forall (days : list (pop_day N)) d c (s : sim N),
+  PopInv mx dist tp d c s -> sim_ok mx dist tp d s days ->
+  x_conforming mx c (s_eng s) (map to_xev (sim_run dist d s days)).
+Proof. exact @sim_run_conforming. Qed.
+Print Assumptions C20_simulated_population_follows_the_discipline.
+
+Theorem C20_simulated_population_is_never_refused : forall (N : NumOps) mx, 1 <= mx ->
+  forall (dist : Z -> Z -> K N) (tp : thparams), rules_ok tp ->
+  forall (days : list (pop_day N)) d c (s : sim N),
+  PopInv mx dist tp d c s -> sim_ok mx dist tp d s days ->
+  x_all_accepted (s_eng s) (map to_xev (sim_run dist d s days)).
+Proof. exact @sim_run_all_accepted. Qed.
+Print Assumptions C20_simulated_population_is_never_refused.
+
+(** runnable form: a population without records, the hypotheses decided by computation *)
+Theorem C20_checked_population_is_never_refused : forall (N : NumOps) mx, 1 <= mx ->
+  forall (dist : Z -> Z -> K N) (tp : thparams), rules_ok tp ->
+  forall (days : list (pop_day N)) d (a : admin N) (ks : list Z),
+  1 <= d -> NoDup ks -> (forall k, In k ks -> 0 <= k < 2 ^ 160) ->
+  let s := mkSim (mkEngine a []) (map (fun k => mkSBot (N:=N) k []) ks) in
+  sim_okb mx dist tp d s days = true -> x_all_accepted (s_eng s) (map to_xev (sim_run dist d s days)).
+Proof. exact @checked_population_all_accepted. Qed.
+Print Assumptions C20_checked_population_is_never_refused.
+
+Theorem C20_planning_threads_visit_every_bot_once : forall n threads, 0 < threads -> 0 <= n ->
+  (forall x, 0 <= x < n ->
+     In x (worker_bots (Z.to_nat n) (x mod threads) n threads) /\ 0 <= x mod threads < threads /\
+     forall off, 0 <= off < threads -> In x (worker_bots (Z.to_nat n) off n threads) -> off = x mod threads) /\
+  (forall off, 0 <= off < threads ->
+     NoDup (worker_bots (Z.to_nat n) off n threads) /\
+     forall x, In x (worker_bots (Z.to_nat n) off n threads) -> 0 <= x < n).
+Proof. exact planning_threads_partition. Qed.
+Print Assumptions C20_planning_threads_visit_every_bot_once.
+
+(** non-vacuity: three bots on one engine with the model's LINEAR predictor, exact arithmetic, twelve days.  Two
+    of them plan on the first day (in the order bot 2, bot 0), the third on the fifth day; a later trip is planned
+    while the first is still to be kept.  The check passes, the run contains eight check-ins (all accepted, by the
+    theorem), and the bot that flew twice ends the run in debt. *)
+Definition pop_admin : admin NumZ :=
+  @mkAdmin NumZ ex_params (create_predictor (@PNone NumZ) ex_params) (@empty_pc NumZ) 0.
+Definition pop_choice (day : Z) : plan_choice NumZ := @mkChoice NumZ 3 day 1 2 0 3600 3600.
+Definition pop_day_in (calls : list (nat * plan_choice NumZ)) : pop_day NumZ :=
+  @mkPopDay NumZ [] true calls (fun _ => 7200) (fun _ => 3600) None.
+Definition pop_days : list (pop_day NumZ) :=
+  [ pop_day_in [(2%nat, pop_choice 18002); (0%nat, pop_choice 18003)]; pop_day_in []; pop_day_in []; pop_day_in [];
+    pop_day_in [(1%nat, pop_choice 18006); (2%nat, pop_choice 18009)] ] ++ repeat (pop_day_in []) 9.
+Definition pop_start : sim NumZ := mkSim (mkEngine pop_admin []) (map (fun k => mkSBot (N:=NumZ) k []) [5; 9; 12]).
+Definition pop_history : list (sop NumZ) := sim_run (N:=NumZ) exb_dist 18000 pop_start pop_days.
+
+Example C20_population_hypotheses_hold_somewhere :
+  sim_okb (N:=NumZ) 3 exb_dist (th_params ex_params) 18000 pop_start pop_days = true /\
+  length (filter (fun x => match x with SCheckin _ _ _ _ => true | _ => false end) pop_history) = 8%nat /\
+  length (filter (fun kt : Z * traveller NumZ => (t_balance (snd kt) <? 0)) (e_table (fold_left (sop_apply (N:=NumZ)) pop_history (s_eng pop_start)))) = 1%nat /\
+  x_all_accepted (s_eng pop_start) (map to_xev pop_history).
+Proof.
+  assert (Hok : sim_okb (N:=NumZ) 3 exb_dist (th_params ex_params) 18000 pop_start pop_days = true) by (vm_compute; reflexivity).
+  split; [exact Hok|]. split; [vm_compute; reflexivity|]. split; [vm_compute; reflexivity|].
+  apply (C20_checked_population_is_never_refused NumZ 3 ltac:(lia) exb_dist (th_params ex_params)
+           ltac:(unfold rules_ok; cbn; lia) pop_days 18000 pop_admin [5; 9; 12] ltac:(lia)).
+  - repeat constructor; cbn; intuition lia.
+  - intros k [<-|[<-|[<-|[]]]]; change (2 ^ 160) with 1461501637330902918203684832716283019655932542976; lia.
+  - exact Hok.
+Qed.
